@@ -738,8 +738,9 @@ func (loc *Location) ListRules(ctx *Context, includeInherited bool) ([]string, e
 
 	sr, err := loc.SearchFacts(ctx, Map{"rule": "?rule"}, includeInherited)
 
-	acc := make([]string, 0, len(sr.Found))
+	acc := make([]string, 0, 0)
 	if err == nil {
+		acc = make([]string, 0, len(sr.Found))
 		for _, srs := range sr.Found {
 			// ToDo: Be more careful
 			rule, _ := srs.Bindingss[0]["?rule"]
@@ -759,7 +760,7 @@ func (loc *Location) ListRules(ctx *Context, includeInherited bool) ([]string, e
 
 	loc.stats.IncErrors(err)
 	Inc(&loc.stats.TotalTime, timer.Stop())
-	return acc, nil
+	return acc, err
 }
 
 // getParents is current just a wrapper around 'GetProp' to read a
